@@ -408,3 +408,72 @@ Proof. vm_compute. repeat split; reflexivity. Qed.
 
 Print Assumptions C01_archive_roundtrip_nonvacuous.
 Print Assumptions C01_archive_roundtrip_readback.
+
+(* ---------- Tie A, decision logic (tools/src2v2.py -> gen/Src2.v): ArchiveFileBlock::dump re-translated from the source writes the model's ser_block ---------- *)
+From MLA Require SrcTie2.
+Check SrcTie2.dump_start.
+Theorem C01_tie_dump_start : ltac:(let t := type of SrcTie2.dump_start in exact t).
+Proof. exact SrcTie2.dump_start. Qed.
+Print Assumptions C01_tie_dump_start.
+Check SrcTie2.dump_content.
+Theorem C01_tie_dump_content : ltac:(let t := type of SrcTie2.dump_content in exact t).
+Proof. exact SrcTie2.dump_content. Qed.
+Print Assumptions C01_tie_dump_content.
+Check SrcTie2.dump_content_block.
+Theorem C01_tie_dump_content_block : ltac:(let t := type of SrcTie2.dump_content_block in exact t).
+Proof. exact SrcTie2.dump_content_block. Qed.
+Print Assumptions C01_tie_dump_content_block.
+Check SrcTie2.dump_eof.
+Theorem C01_tie_dump_eof : ltac:(let t := type of SrcTie2.dump_eof in exact t).
+Proof. exact SrcTie2.dump_eof. Qed.
+Print Assumptions C01_tie_dump_eof.
+Check SrcTie2.dump_end.
+Theorem C01_tie_dump_end : ltac:(let t := type of SrcTie2.dump_end in exact t).
+Proof. exact SrcTie2.dump_end. Qed.
+Print Assumptions C01_tie_dump_end.
+(* ---------- work package wrows: the Tie B rows of jobs c01-aw / c01-encw evaluate the SUBJECT of
+   the theorems above, not a lookalike (theories/RunWRows.v, RunWRowsProofs.v) ---------- *)
+From MLA Require RunWRows RunWRowsProofs.
+
+(* the footer order given to archive_write by the rows (the HashMap order observed in the real
+   footer) meets the premise `forall f, Permutation (order f) f`, whatever the harness passes *)
+Theorem C01_rows_order_is_permutation :
+  forall names f, Permutation (RunWRows.aw_order names f) f.
+Proof. exact RunWRowsProofs.aw_order_perm. Qed.
+
+(* the archive of C01_archive_roundtrip_gcm at the parameters of the rows, with ANY X25519
+   (pubk, dh), is what job c01-aw evaluates from the ephemeral public key and the shared secrets *)
+Theorem C01_rows_archive_write :
+  forall k ntab (pubk : bytes -> bytes) (dh : bytes -> bytes -> bytes) names cfg cut_top cut_mid ops,
+  archive_write (cCHUNK k) (cCIPHERBUF k) (cBLOCK k) RunWRows.aw_LIMIT (cFNMAX k)
+    Src.BT_FileStart Src.BT_FileContent Src.BT_EndOfArchiveData Src.BT_EndOfFile
+    sha256 (RunWRows.aw_order names) pubk dh hkdf_info (gwenc E_aes256 Ghash.gf_mul) (gwtag E_aes256 Ghash.gf_mul)
+    (ksf_gcm (cCHUNK k) ntab) tagf_gcm cfg cut_top cut_mid ops
+  = RunWRows.aw_write k ntab (pubk (wc_eph cfg)) names (RunWRowsProofs.oracle_cfg dh cfg) cut_top cut_mid ops.
+Proof. exact RunWRowsProofs.c01_aw_row_is_theorem_archive. Qed.
+
+(* the encryption branch of archive_write's lower_write (EncWriter.ew_archive with lower_write's
+   fuel): the rows of job c01-encw for "write_all each piece, then finalize" end with its bytes *)
+Theorem C01_rows_enc_writer :
+  forall k key nonce8 ntab (mid : list bytes) s,
+  ew_archive (cCHUNK k) (cCIPHERBUF k)
+             (InstGcm.gcm_ks (InstGcm.gcm_tab (Aes.aes256_expand key) nonce8 (cCHUNK k) (N.to_nat ntab)))
+             (InstGcm.gcm_tagc (Aes.aes256_expand key) nonce8)
+             (S (N.to_nat (len (concat mid)))) mid = Ok s ->
+  exists rows, RunWRows.c01_encw k key nonce8 ntab (map (cons 1) mid ++ [[3]]) = rows ++ [9 :: ew_out s].
+Proof. exact RunWRowsProofs.encw_ops_is_ew_archive. Qed.
+
+Print Assumptions C01_rows_order_is_permutation.
+Print Assumptions C01_rows_archive_write.
+Print Assumptions C01_rows_enc_writer.
+
+(* non-vacuity of C01_rows_enc_writer: scaled constants, two pieces (3 and 70 bytes: the second one
+   crosses the 64-byte chunk boundary): ew_archive succeeds, 73 bytes of ciphertext and two tags *)
+Example C01_rows_enc_writer_nonvacuous :
+  exists s,
+    ew_archive (cCHUNK consts_verif) (cCIPHERBUF consts_verif)
+      (InstGcm.gcm_ks (InstGcm.gcm_tab (Aes.aes256_expand (repeat 7 32)) (repeat 9 8) (cCHUNK consts_verif) 4))
+      (InstGcm.gcm_tagc (Aes.aes256_expand (repeat 7 32)) (repeat 9 8))
+      (S (N.to_nat (len (concat [[1; 2; 3]; repeat 5 70])))) [[1; 2; 3]; repeat 5 70] = Ok s /\
+    len (ew_out s) = 73 + 2 * 16 /\ ew_ctr s = 2.
+Proof. eexists. split; [vm_compute; reflexivity | split; vm_compute; reflexivity]. Qed.
